@@ -1,6 +1,8 @@
 // ======== spec vocabulary of U1 (pure Verus; mentions no code)
 // puts a term in front of the solver (trigger for the quantified invariants)
 pub proof fn mention(b: bool) {}
+// names the existential witness of `insert`'s postconditions (slot and the sorted read list)
+pub open spec fn at_slot(s: int, g: int, rs: Seq<ResourceId>) -> bool { true }
 pub type IdsT = Seq<Vec<ArrayVec<SystemId, MAX_SYSTEMS_PER_GROUP>>>;
 pub type RwsT = Seq<Vec<Vec<ResourceId>>>;
 
@@ -296,6 +298,268 @@ impl StagesBuilder {
                     let j = choose|j: int| 0 <= j < dep0.len() && dep0[j] == d;
                     self.lemma_located_split(d, 0, t, n);
                     assert(self.located_in(dep0[j], t, n));
+                }
+            }
+        }
+    }
+}
+// ---- the step relation of `insert` (C04: exactly one slot of each of the five tables receives the new system)
+impl StagesBuilder {
+    pub open spec fn ngroups(&self, s: int) -> int { self.ids@[s]@.len() as int }
+    // the slot (s, g) of `self` does not exist yet
+    pub open spec fn fresh_slot(&self, s: int, g: int) -> bool { s == self.nstages() || (0 <= s < self.nstages() && g == self.ngroups(s)) }
+    pub open spec fn slot_ids(&self, s: int, g: int) -> Seq<SystemId> { if self.fresh_slot(s, g) { Seq::empty() } else { self.ids@[s]@[g]@ } }
+    pub open spec fn slot_reads(&self, s: int, g: int) -> Seq<ResourceId> { if self.fresh_slot(s, g) { Seq::empty() } else { self.reads@[s]@[g]@ } }
+    pub open spec fn slot_writes(&self, s: int, g: int) -> Seq<ResourceId> { if self.fresh_slot(s, g) { Seq::empty() } else { self.writes@[s]@[g]@ } }
+    pub open spec fn slot_time(&self, s: int, g: int) -> int { if self.fresh_slot(s, g) { 0 } else { self.running_time@[s]@[g] as int } }
+    pub open spec fn slot_boxes(&self, s: int, g: int) -> Seq<SysBox> { if self.fresh_slot(s, g) { Seq::empty() } else { self.stages@[s].groups@[g]@ } }
+
+    // `post` is `self` with one system (id, reads rs, writes ws, time t) appended to slot (s, g); everything else unchanged
+    pub open spec fn placed(&self, post: &StagesBuilder, s: int, g: int, id: SystemId, rs: Seq<ResourceId>, ws: Seq<ResourceId>, t: int) -> bool {
+        &&& post.barrier == self.barrier
+        &&& 0 <= s <= self.nstages()
+        &&& (if s == self.nstages() { g == 0 } else { 0 <= g <= self.ngroups(s) })
+        &&& post.lockstep()
+        &&& post.nstages() == (if s == self.nstages() { self.nstages() + 1 } else { self.nstages() })
+        // stages other than s: untouched
+        &&& forall|u: int| 0 <= u < self.nstages() && u != s ==> {
+            &&& #[trigger] post.ids@[u] == self.ids@[u]
+            &&& post.reads@[u] == self.reads@[u]
+            &&& post.writes@[u] == self.writes@[u]
+            &&& post.running_time@[u] == self.running_time@[u]
+            &&& post.stages@[u] == self.stages@[u]
+        }
+        // stage s: same groups plus possibly one new one at the end; groups other than g untouched
+        &&& post.ngroups(s) == (if self.fresh_slot(s, g) { g + 1 } else { self.ngroups(s) })
+        &&& forall|h: int| 0 <= h < post.ngroups(s) && h != g ==> {
+            &&& #[trigger] post.ids@[s]@[h] == self.ids@[s]@[h]
+            &&& post.reads@[s]@[h] == self.reads@[s]@[h]
+            &&& post.writes@[s]@[h] == self.writes@[s]@[h]
+            &&& post.running_time@[s]@[h] == self.running_time@[s]@[h]
+            &&& post.stages@[s].groups@[h] == self.stages@[s].groups@[h]
+        }
+        // slot (s, g): one element appended to each table
+        &&& post.ids@[s]@[g]@ == self.slot_ids(s, g).push(id)
+        &&& post.reads@[s]@[g]@ == self.slot_reads(s, g) + rs
+        &&& post.writes@[s]@[g]@ == self.slot_writes(s, g) + ws
+        &&& post.running_time@[s]@[g] as int == self.slot_time(s, g) + t
+        &&& post.stages@[s].groups@[g]@.len() == self.slot_boxes(s, g).len() + 1
+        &&& post.stages@[s].groups@[g]@.subrange(0, self.slot_boxes(s, g).len() as int) == self.slot_boxes(s, g)
+    }
+}
+impl StagesBuilder {
+    // C01 (layout form): the groups of one stage are pairwise access-compatible
+    pub open spec fn isolated(&self) -> bool {
+        forall|s: int, g: int, h: int| 0 <= s < self.nstages() && 0 <= g < self.ngroups(s) && 0 <= h < self.ngroups(s) && g != h ==>
+            !res_conflict(#[trigger] self.reads@[s]@[g]@, self.writes@[s]@[g]@, #[trigger] self.reads@[s]@[h]@, self.writes@[s]@[h]@)
+    }
+    // accumulated access of a group covers what each member declared (C01: nothing declared is forgotten)
+    pub open spec fn covers_sup(&self) -> bool {
+        &&& forall|s: int, g: int, p: int, x: ResourceId| 0 <= s < self.nstages() && 0 <= g < self.ngroups(s) && 0 <= p < self.stages@[s].groups@[g]@.len()
+                && #[trigger] self.stages@[s].groups@[g]@[p].decl_reads().contains(x) ==> self.reads@[s]@[g]@.contains(x)
+        &&& forall|s: int, g: int, p: int, x: ResourceId| 0 <= s < self.nstages() && 0 <= g < self.ngroups(s) && 0 <= p < self.stages@[s].groups@[g]@.len()
+                && #[trigger] self.stages@[s].groups@[g]@[p].decl_writes().contains(x) ==> self.writes@[s]@[g]@.contains(x)
+    }
+    // ... and contains nothing that no member declared (C10: a group conflict is a conflict with a registered system)
+    pub open spec fn covers_sub(&self) -> bool {
+        &&& forall|s: int, g: int, x: ResourceId| 0 <= s < self.nstages() && 0 <= g < self.ngroups(s) && #[trigger] self.reads@[s]@[g]@.contains(x)
+                ==> exists|p: int| 0 <= p < self.stages@[s].groups@[g]@.len() && #[trigger] self.stages@[s].groups@[g]@[p].decl_reads().contains(x)
+        &&& forall|s: int, g: int, x: ResourceId| 0 <= s < self.nstages() && 0 <= g < self.ngroups(s) && #[trigger] self.writes@[s]@[g]@.contains(x)
+                ==> exists|p: int| 0 <= p < self.stages@[s].groups@[g]@.len() && #[trigger] self.stages@[s].groups@[g]@[p].decl_writes().contains(x)
+    }
+    pub open spec fn placed_box(&self, post: &StagesBuilder, s: int, g: int, dr: Seq<ResourceId>, dw: Seq<ResourceId>) -> bool {
+        post.stages@[s].groups@[g]@.last().decl_reads() == dr && post.stages@[s].groups@[g]@.last().decl_writes() == dw
+    }
+    pub open spec fn placed_dep(&self, s: int, g: int, dep: Seq<SystemId>) -> bool {
+        forall|i: int| 0 <= i < dep.len() ==> self.located_in(#[trigger] dep[i], 0, s) || self.slot_ids(s, g).contains(dep[i])
+    }
+    pub open spec fn placed_fit(&self, s: int, rs: Seq<ResourceId>, ws: Seq<ResourceId>, dep: Seq<SystemId>) -> bool {
+        forall|t: int| self.barrier <= t < s ==> #[trigger] self.skip_justified(t, rs, ws, dep)
+    }
+}
+pub proof fn lemma_inter_concat<T>(a: Seq<T>, b: Seq<T>, c: Seq<T>)
+    ensures inter(a, b + c) <==> inter(a, b) || inter(a, c), inter(b + c, a) <==> inter(b, a) || inter(c, a)
+{
+    if inter(a, b + c) {
+        let (i, j) = choose|i: int, j: int| 0 <= i < a.len() && 0 <= j < (b + c).len() && a[i] == (b + c)[j];
+        if j < b.len() { assert(a[i] == b[j]); } else { assert(a[i] == c[j - b.len()]); }
+    }
+    if inter(a, b) { let (i, j) = choose|i: int, j: int| 0 <= i < a.len() && 0 <= j < b.len() && a[i] == b[j]; assert((b + c)[j] == a[i]); }
+    if inter(a, c) { let (i, j) = choose|i: int, j: int| 0 <= i < a.len() && 0 <= j < c.len() && a[i] == c[j]; assert((b + c)[j + b.len()] == a[i]); }
+    if inter(b + c, a) {
+        let (j, i) = choose|j: int, i: int| 0 <= j < (b + c).len() && 0 <= i < a.len() && (b + c)[j] == a[i];
+        if j < b.len() { assert(b[j] == a[i]); } else { assert(c[j - b.len()] == a[i]); }
+    }
+    if inter(b, a) { let (j, i) = choose|j: int, i: int| 0 <= j < b.len() && 0 <= i < a.len() && b[j] == a[i]; assert((b + c)[j] == a[i]); }
+    if inter(c, a) { let (j, i) = choose|j: int, i: int| 0 <= j < c.len() && 0 <= i < a.len() && c[j] == a[i]; assert((b + c)[j + b.len()] == a[i]); }
+}
+pub proof fn lemma_inter_sym<T>(a: Seq<T>, b: Seq<T>)
+    ensures inter(a, b) <==> inter(b, a)
+{
+    if inter(a, b) { let (i, j) = choose|i: int, j: int| 0 <= i < a.len() && 0 <= j < b.len() && a[i] == b[j]; assert(b[j] == a[i]); }
+    if inter(b, a) { let (i, j) = choose|i: int, j: int| 0 <= i < b.len() && 0 <= j < a.len() && b[i] == a[j]; assert(a[j] == b[i]); }
+}
+pub proof fn lemma_inter_empty<T>(a: Seq<T>)
+    ensures !inter(a, Seq::<T>::empty()), !inter(Seq::<T>::empty(), a)
+{}
+// res_conflict is symmetric in the two systems and distributes over accumulating access
+pub proof fn lemma_res_conflict_sym(r1: Seq<ResourceId>, w1: Seq<ResourceId>, r2: Seq<ResourceId>, w2: Seq<ResourceId>)
+    ensures res_conflict(r1, w1, r2, w2) <==> res_conflict(r2, w2, r1, w1)
+{
+    lemma_inter_concat(w2, w1, r1); lemma_inter_concat(w1, w2, r2);
+    lemma_inter_sym(w2, w1); lemma_inter_sym(w2, r1); lemma_inter_sym(r2, w1);
+}
+pub proof fn lemma_res_conflict_concat(r: Seq<ResourceId>, w: Seq<ResourceId>, r1: Seq<ResourceId>, w1: Seq<ResourceId>, r2: Seq<ResourceId>, w2: Seq<ResourceId>)
+    ensures res_conflict(r, w, r1 + r2, w1 + w2) <==> res_conflict(r, w, r1, w1) || res_conflict(r, w, r2, w2)
+{
+    lemma_inter_concat(w + r, w1, w2); lemma_inter_concat(w, r1, r2);
+}
+pub proof fn lemma_res_conflict_empty(r: Seq<ResourceId>, w: Seq<ResourceId>)
+    ensures !res_conflict(r, w, Seq::empty(), Seq::empty()), !res_conflict(Seq::empty(), Seq::empty(), r, w)
+{
+    lemma_res_conflict_sym(r, w, Seq::empty(), Seq::empty());
+}
+impl StagesBuilder {
+    // C01, inductive step: appending (rs, ws) to slot (s, g) keeps the groups of every stage pairwise compatible,
+    // provided (rs, ws) is compatible with every other group of stage s
+    pub proof fn lemma_insert_iso(&self, post: &StagesBuilder, s: int, g: int, id: SystemId, rs: Seq<ResourceId>, ws: Seq<ResourceId>, t: int)
+        requires
+            self.lockstep(), self.isolated(), self.placed(post, s, g, id, rs, ws, t),
+            s < self.nstages() ==> forall|h: int| 0 <= h < self.ngroups(s) && h != g ==> !res_conflict(#[trigger] self.reads@[s]@[h]@, self.writes@[s]@[h]@, rs, ws),
+        ensures post.isolated()
+    {
+        assert forall|s2: int, g2: int, h2: int| 0 <= s2 < post.nstages() && 0 <= g2 < post.ngroups(s2) && 0 <= h2 < post.ngroups(s2) && g2 != h2 implies
+            !res_conflict(#[trigger] post.reads@[s2]@[g2]@, post.writes@[s2]@[g2]@, #[trigger] post.reads@[s2]@[h2]@, post.writes@[s2]@[h2]@) by
+        {
+            if s2 != s {
+                assert(post.ids@[s2] == self.ids@[s2]);
+                assert(!res_conflict(self.reads@[s2]@[g2]@, self.writes@[s2]@[g2]@, self.reads@[s2]@[h2]@, self.writes@[s2]@[h2]@));
+            } else if g2 != g && h2 != g {
+                assert(post.ids@[s]@[g2] == self.ids@[s]@[g2]);
+                assert(post.ids@[s]@[h2] == self.ids@[s]@[h2]);
+                assert(!res_conflict(self.reads@[s]@[g2]@, self.writes@[s]@[g2]@, self.reads@[s]@[h2]@, self.writes@[s]@[h2]@));
+            } else {
+                // one of the two is the slot that received the new system; o is the other group
+                let o = if g2 == g { h2 } else { g2 };
+                assert(post.ids@[s]@[o] == self.ids@[s]@[o]);
+                let ro = self.reads@[s]@[o]@; let wo = self.writes@[s]@[o]@;
+                let rg = self.slot_reads(s, g); let wg = self.slot_writes(s, g);
+                assert(s < self.nstages());
+                assert(!res_conflict(ro, wo, rs, ws));
+                if self.fresh_slot(s, g) {
+                    lemma_res_conflict_empty(ro, wo);
+                } else {
+                    assert(!res_conflict(self.reads@[s]@[o]@, self.writes@[s]@[o]@, self.reads@[s]@[g]@, self.writes@[s]@[g]@));
+                }
+                assert(!res_conflict(ro, wo, rg, wg));
+                lemma_res_conflict_concat(ro, wo, rg, wg, rs, ws);
+                lemma_res_conflict_sym(ro, wo, rg + rs, wg + ws);
+            }
+        }
+    }
+    // the new system's declaration (dr, dw) is recorded in its group (rs is dr up to order and duplicates)
+    pub proof fn lemma_insert_covers_sup(&self, post: &StagesBuilder, s: int, g: int, id: SystemId, rs: Seq<ResourceId>, ws: Seq<ResourceId>, t: int, dr: Seq<ResourceId>, dw: Seq<ResourceId>)
+        requires
+            self.lockstep(), self.covers_sup(), self.placed(post, s, g, id, rs, ws, t), self.placed_box(post, s, g, dr, dw),
+            forall|x: ResourceId| dr.contains(x) ==> rs.contains(x), forall|x: ResourceId| dw.contains(x) ==> ws.contains(x),
+        ensures post.covers_sup()
+    {
+        let n = self.slot_boxes(s, g).len() as int;
+        assert forall|s2: int, g2: int, p: int, x: ResourceId| 0 <= s2 < post.nstages() && 0 <= g2 < post.ngroups(s2) && 0 <= p < post.stages@[s2].groups@[g2]@.len()
+            && #[trigger] post.stages@[s2].groups@[g2]@[p].decl_reads().contains(x) implies post.reads@[s2]@[g2]@.contains(x) by
+        {
+            let b = post.stages@[s2].groups@[g2]@[p];
+            if s2 != s {
+                assert(post.ids@[s2] == self.ids@[s2]);
+                assert(self.stages@[s2].groups@[g2]@[p].decl_reads().contains(x));
+            } else if g2 != g {
+                assert(post.ids@[s]@[g2] == self.ids@[s]@[g2]);
+                assert(self.stages@[s2].groups@[g2]@[p].decl_reads().contains(x));
+            } else if p < n {
+                assert(post.stages@[s].groups@[g]@.subrange(0, n)[p] == b);
+                assert(self.stages@[s].groups@[g]@[p].decl_reads().contains(x));
+                let i = choose|i: int| 0 <= i < self.reads@[s]@[g]@.len() && self.reads@[s]@[g]@[i] == x;
+                assert((self.slot_reads(s, g) + rs)[i] == x);
+            } else {
+                assert(b == post.stages@[s].groups@[g]@.last());
+                let i = choose|i: int| 0 <= i < rs.len() && rs[i] == x;
+                assert((self.slot_reads(s, g) + rs)[self.slot_reads(s, g).len() + i] == x);
+            }
+        }
+        assert forall|s2: int, g2: int, p: int, x: ResourceId| 0 <= s2 < post.nstages() && 0 <= g2 < post.ngroups(s2) && 0 <= p < post.stages@[s2].groups@[g2]@.len()
+            && #[trigger] post.stages@[s2].groups@[g2]@[p].decl_writes().contains(x) implies post.writes@[s2]@[g2]@.contains(x) by
+        {
+            let b = post.stages@[s2].groups@[g2]@[p];
+            if s2 != s {
+                assert(post.ids@[s2] == self.ids@[s2]);
+                assert(self.stages@[s2].groups@[g2]@[p].decl_writes().contains(x));
+            } else if g2 != g {
+                assert(post.ids@[s]@[g2] == self.ids@[s]@[g2]);
+                assert(self.stages@[s2].groups@[g2]@[p].decl_writes().contains(x));
+            } else if p < n {
+                assert(post.stages@[s].groups@[g]@.subrange(0, n)[p] == b);
+                assert(self.stages@[s].groups@[g]@[p].decl_writes().contains(x));
+                let i = choose|i: int| 0 <= i < self.writes@[s]@[g]@.len() && self.writes@[s]@[g]@[i] == x;
+                assert((self.slot_writes(s, g) + ws)[i] == x);
+            } else {
+                assert(b == post.stages@[s].groups@[g]@.last());
+                let i = choose|i: int| 0 <= i < ws.len() && ws[i] == x;
+                assert((self.slot_writes(s, g) + ws)[self.slot_writes(s, g).len() + i] == x);
+            }
+        }
+    }
+    // ... and nothing is recorded that no member declared
+    pub proof fn lemma_insert_covers_sub(&self, post: &StagesBuilder, s: int, g: int, id: SystemId, rs: Seq<ResourceId>, ws: Seq<ResourceId>, t: int, dr: Seq<ResourceId>, dw: Seq<ResourceId>)
+        requires
+            self.lockstep(), self.covers_sub(), self.placed(post, s, g, id, rs, ws, t), self.placed_box(post, s, g, dr, dw),
+            forall|x: ResourceId| rs.contains(x) ==> dr.contains(x), forall|x: ResourceId| ws.contains(x) ==> dw.contains(x),
+        ensures post.covers_sub()
+    {
+        let n = self.slot_boxes(s, g).len() as int;
+        let last = post.stages@[s].groups@[g]@.len() - 1;
+        assert forall|s2: int, g2: int, x: ResourceId| 0 <= s2 < post.nstages() && 0 <= g2 < post.ngroups(s2) && #[trigger] post.reads@[s2]@[g2]@.contains(x)
+            implies exists|p: int| 0 <= p < post.stages@[s2].groups@[g2]@.len() && #[trigger] post.stages@[s2].groups@[g2]@[p].decl_reads().contains(x) by
+        {
+            if s2 != s {
+                assert(post.ids@[s2] == self.ids@[s2]);
+                assert(self.reads@[s2]@[g2]@.contains(x));
+            } else if g2 != g {
+                assert(post.ids@[s]@[g2] == self.ids@[s]@[g2]);
+                assert(self.reads@[s2]@[g2]@.contains(x));
+            } else {
+                let i = choose|i: int| 0 <= i < (self.slot_reads(s, g) + rs).len() && (self.slot_reads(s, g) + rs)[i] == x;
+                if i < self.slot_reads(s, g).len() {
+                    assert(self.reads@[s]@[g]@[i] == x);
+                    assert(self.reads@[s]@[g]@.contains(x));
+                    let p = choose|p: int| 0 <= p < self.stages@[s].groups@[g]@.len() && #[trigger] self.stages@[s].groups@[g]@[p].decl_reads().contains(x);
+                    assert(post.stages@[s].groups@[g]@.subrange(0, n)[p] == self.stages@[s].groups@[g]@[p]);
+                    assert(post.stages@[s].groups@[g]@[p].decl_reads().contains(x));
+                } else {
+                    assert(rs[i - self.slot_reads(s, g).len()] == x);
+                    assert(post.stages@[s].groups@[g]@[last].decl_reads().contains(x));
+                }
+            }
+        }
+        assert forall|s2: int, g2: int, x: ResourceId| 0 <= s2 < post.nstages() && 0 <= g2 < post.ngroups(s2) && #[trigger] post.writes@[s2]@[g2]@.contains(x)
+            implies exists|p: int| 0 <= p < post.stages@[s2].groups@[g2]@.len() && #[trigger] post.stages@[s2].groups@[g2]@[p].decl_writes().contains(x) by
+        {
+            if s2 != s {
+                assert(post.ids@[s2] == self.ids@[s2]);
+                assert(self.writes@[s2]@[g2]@.contains(x));
+            } else if g2 != g {
+                assert(post.ids@[s]@[g2] == self.ids@[s]@[g2]);
+                assert(self.writes@[s2]@[g2]@.contains(x));
+            } else {
+                let i = choose|i: int| 0 <= i < (self.slot_writes(s, g) + ws).len() && (self.slot_writes(s, g) + ws)[i] == x;
+                if i < self.slot_writes(s, g).len() {
+                    assert(self.writes@[s]@[g]@[i] == x);
+                    assert(self.writes@[s]@[g]@.contains(x));
+                    let p = choose|p: int| 0 <= p < self.stages@[s].groups@[g]@.len() && #[trigger] self.stages@[s].groups@[g]@[p].decl_writes().contains(x);
+                    assert(post.stages@[s].groups@[g]@.subrange(0, n)[p] == self.stages@[s].groups@[g]@[p]);
+                    assert(post.stages@[s].groups@[g]@[p].decl_writes().contains(x));
+                } else {
+                    assert(ws[i - self.slot_writes(s, g).len()] == x);
+                    assert(post.stages@[s].groups@[g]@[last].decl_writes().contains(x));
                 }
             }
         }
